@@ -97,7 +97,7 @@ J(name="c04.isPentagon", props=["C04", "C12", "C18"], harness="c04.c", entry="h_
   enforce=["isPentagon"], unwind=17, replay=dict(fn="isPentagon", args=["h"]))
 J(name="c04.ipow", props=["C04", "C13"], harness="c04.c", entry="h_ipow", enforce=["_ipow"], unwind=6)
 J(name="c04.cellToParent", props=["C04", "C12", "C18", "C01"], harness="c04.c", entry="h_cellToParent",
-  enforce=["cellToParent"],
+  enforce=["cellToParent"], fallback_unwind=17,
   loops=[dict(fn="cellToParent", loop=0, locals=["i", "parentH", "parentRes", "childRes", "h"],
               assigns="i, parentH",
               inv="parentRes + 1 <= i && i <= childRes + 1 && childRes <= 15 && parentRes >= 0 && "
